@@ -490,6 +490,24 @@ pub fn gen_driver(prop: &str, rng: &mut Rng, sh: &mut Shards, out: &str, thoroug
                 items.push(Item::Ins(Ins::Print { what: PrintWhat::Reg }));
                 progs.push((Program { data: Vec::new(), items, interp: false, stdin, note: format!("services-long-line-{}", len) }, Layout::plain()));
             }
+            // the line-input buffer laid over the end of the 1 MB space: its capacity byte on FFFFDh .. 00002h (the count byte
+            // and the characters then wrap one after the other), every small capacity, a line longer than the buffer
+            for (bi, base) in (0xFFFFDu32..=0x100002).enumerate() {
+                for cap in [0i32, 1, 4] {
+                    let (seg, dx) = if (bi + cap as usize) % 2 == 0 { (0xFFFFu32, base - 0xFFFF0) } else { (0xF800u32, base - 0xF8000) };
+                    let mut items: Vec<Item> = vec![Item::Label("start".into())];
+                    items.extend(setseg("ds", seg as u16));
+                    items.push(mov16("dx", dx as u16));
+                    items.push(mov16("bx", dx as u16));
+                    items.push(Item::Ins(Ins::Mov { w: 8, dst: Opnd::Mem { seg: "", base: "bx", index: "", disp: 0, has_disp: false }, src: Opnd::Imm(cap) }));
+                    items.push(mov16("ax", 0x0A00));
+                    items.push(Item::Ins(Ins::Int { n: 0x21 }));
+                    items.push(Item::Ins(Ins::Print { what: PrintWhat::Range(0, 7) }));
+                    items.push(Item::Ins(Ins::Print { what: PrintWhat::Range(0xFFFF8, 0xFFFFF) }));
+                    let stdin = vec![ScriptLine { raw: "hello!".into(), newline: cap != 4, cls: "data", what: None }];
+                    progs.push((Program { data: Vec::new(), items, interp: false, stdin, note: format!("services-buffer-at-{:x}", base) }, Layout::plain()));
+                }
+            }
             // the small corner of every console-output service: counts and columns 0, 1, 2 in every combination
             for cx in [0u16, 1, 2] {
                 for dl in [0u16, 1, 2, 9] {
